@@ -1,9 +1,182 @@
-/- Driver handlers, group Draw (stub; filled in by the group's model). -/
+/-
+  Driver handlers, group Draw (C13, C15): the drawing parser / translator model and the
+  save–load / declarative model, fed with the anchors and attribute values the harness read
+  from real schemdraw objects.
+-/
 import CC.Driver.Json
 import CC.Driver.LinAlg
+import CC.Model.Draw
+import CC.Model.DrawIO
+namespace CC.DrawDriver
+open Lean CC CC.Draw
+
+def jsonPt (p : Pt) : Json := Json.arr #[jsonRat p.x, jsonRat p.y]
+
+def getPt (j : Json) : Except String Pt :=
+  match j with
+  | .arr #[a, b] => do pure ⟨← getRat a, ← getRat b⟩
+  | _ => .error "point expected"
+
+def getVal (j : Json) : Except String Val :=
+  match j with
+  | .null => pure .none
+  | .str "inf" => pure .inf
+  | .bool b => pure (.bool b)
+  | .obj _ =>
+    match j.getObjVal? "n", j.getObjVal? "b", j.getObjVal? "s", j.getObjVal? "p" with
+    | .ok n, _, _, _ => do pure (.num (← getGQ n))
+    | _, .ok b, _, _ => do pure (.bool (← b.getBool?))
+    | _, _, .ok s, _ => do pure (.str (← s.getStr?))
+    | _, _, _, .ok p => do pure (.pt (← getPt p))
+    | _, _, _, _ => .error "bad value object"
+  | _ => .error "value expected"
+
+def jsonVal : Val → Json
+  | .num z => Json.mkObj [("n", jsonGQ z)]
+  | .bool b => Json.mkObj [("b", Json.bool b)]
+  | .str s => Json.mkObj [("s", Json.str s)]
+  | .inf => Json.str "inf"
+  | .none => Json.null
+  | .pt p => Json.mkObj [("p", jsonPt p)]
+
+def getValMap (j : Json) : Except String (List (String × Val)) := do
+  match j with
+  | .arr a => a.toList.mapM fun kv =>
+      match kv with
+      | .arr #[.str k, v] => do pure (k, ← getVal v)
+      | _ => .error "key/value pair expected"
+  | _ => .error "list of key/value pairs expected"
+
+def jsonValMap (m : List (String × Val)) : Json :=
+  Json.arr (m.map fun kv => Json.arr #[Json.str kv.1, jsonVal kv.2]).toArray
+
+def getSym (j : Json) : Except String Sym := do
+  pure { cls := ← getStr j "cls",
+         name := (getStr j "name").toOption.getD "",
+         rev := (getBool j "rev").toOption.getD false,
+         nodeId := (getStr j "node_id").toOption.getD "",
+         attrs := ← getValMap ((j.getObjVal? "attrs").toOption.getD (Json.arr #[])),
+         start := ← getPt (← j.getObjVal? "start"),
+         stop := ← getPt (← j.getObjVal? "end") }
+
+def getSyms (j : Json) : Except String (List Sym) := do
+  (← getArr j "syms").toList.mapM getSym
+
+def getPts (j : Json) (k : String) : Except String (List Pt) := do
+  match j.getObjVal? k with
+  | .ok (.arr a) => a.toList.mapM getPt
+  | _ => pure []
+
+/-- a set order supplied by the harness: used when it is a permutation of the set, otherwise
+the set's own list order (the reply says which) -/
+def orderFrom (given : List Pt) (l : List Pt) : List Pt :=
+  if given.length = l.length ∧ given.all (· ∈ l) ∧ l.all (· ∈ given) then given else l
+
+def ordFrom (ga gu : List Pt) : SetOrd Pt := ⟨orderFrom ga, orderFrom gu⟩
+
+def jsonComponent (c : Component) : Json :=
+  Json.mkObj [("type", c.type), ("id", c.id), ("nodes", jsonStrs c.nodes), ("value", jsonValMap c.value)]
+
+def jsonCircuit (c : Circuit) : Json :=
+  Json.mkObj [("components", Json.arr (c.components.map jsonComponent).toArray), ("ground_node", c.groundNode)]
+
+def getPi (j : Json) : Except String Rat :=
+  match j.getObjVal? "pi" with
+  | .ok v => getRat v
+  | .error _ => pure ((884279719003555 : Rat) / 281474976710656)   -- binary64 math.pi
+
+/-- op `draw_parse`: the whole parser / translator pipeline on one drawing -/
+def h_drawParse : Handler := fun j => do
+  let syms ← getSyms j
+  let π ← getPi j
+  let ga := (← getPts j "ord_all").map roundPt
+  let gu := (← getPts j "ord_uniq").map roundPt
+  let ord := ordFrom ga gu
+  let ws := wiresOf syms
+  let all := allNodes syms
+  let uniq := uniqueNodes ws ord all
+  let umap := uniqueNodeMapping ws ord all
+  let labels := nodeLabelMapping ws ord all (nodeSymsOf syms)
+  pure (Json.mkObj [
+    ("all", Json.arr (all.map jsonPt).toArray),
+    ("ord_all_used", Json.bool (ord.all all == ga)),
+    ("ord_uniq_used", Json.bool (ord.uniq uniq == gu)),
+    ("classes", Json.arr (all.map fun p => Json.arr #[jsonPt p, Json.arr ((eqp ws p).map jsonPt).toArray]).toArray),
+    ("uniq", Json.arr (uniq.map jsonPt).toArray),
+    ("umap", Json.arr (umap.map fun pq => Json.arr #[jsonPt pq.1, jsonPt pq.2]).toArray),
+    ("labels", jsonExcept (fun l => Json.arr (l.map fun (pl : Pt × String) => Json.arr #[jsonPt pl.1, Json.str pl.2]).toArray) labels),
+    ("ground_label", jsonExcept Json.str (groundLabel ord syms)),
+    ("circuit", jsonExcept jsonCircuit (circuitTranslator π ord syms))])
+
+/-- op `draw_round`: `round(x, 2)` on a list of numbers, with the distance to the nearest tie -/
+def h_drawRound : Handler := fun j => do
+  let xs ← (← getArr j "xs").toList.mapM getRat
+  pure (Json.arr (xs.map fun x =>
+    let y := x * 100
+    let d := y - (y.floor : Rat) - 1/2
+    Json.mkObj [("r", jsonRat (round2 x)), ("tie_dist", jsonRat (if d < 0 then -d else d))]).toArray)
+
+/-- op `draw_construct`: a symbol constructor applied to keyword arguments -/
+def h_drawConstruct : Handler := fun j => do
+  let cls ← getStr j "cls"
+  let kwargs ← getValMap (← j.getObjVal? "kwargs")
+  let π ← getPi j
+  pure (jsonExcept (fun (e : SymObj) => Json.mkObj [("name", e.name), ("rev", Json.bool e.rev), ("node_id", e.nodeId),
+      ("attrs", jsonValMap e.attrs)]) (construct π cls kwargs))
+
+def getSaved (j : Json) : Except String SavedElem := do
+  pure { typ := ← getStr j "type", name := ← getStr j "name", rev := ← getBool j "reverse",
+         userparams := ← getValMap (← j.getObjVal? "userparams"),
+         start := ← getPt (← j.getObjVal? "start"), stop := ← getPt (← j.getObjVal? "end") }
+
+def jsonSym (s : Sym) : Json :=
+  Json.mkObj [("cls", s.cls), ("name", s.name), ("rev", Json.bool s.rev), ("node_id", s.nodeId),
+    ("attrs", jsonValMap s.attrs), ("start", jsonPt s.start), ("end", jsonPt s.stop)]
+
+/-- op `draw_load`: `undictify_element` on every saved element against the saved circuit values -/
+def h_drawLoad : Handler := fun j => do
+  let π ← getPi j
+  let saved ← (← getArr j "elements").toList.mapM getSaved
+  let circ ← (← getArr j "circuit").toList.mapM fun c => do
+    pure ((← getStr c "id"), (← getValMap (← c.getObjVal? "value")))
+  pure (jsonExcept (fun l => Json.arr (l.map jsonSym).toArray) (saved.mapM (undictifyElement π circ)))
+
+/-- op `draw_cycles`: n save/load cycles of a drawing in the model; the translated circuit after each -/
+def h_drawCycles : Handler := fun j => do
+  let π ← getPi j
+  let drawing ← (← getArr j "drawing").toList.mapM fun e => do
+    pure ({ cls := ← getStr e "cls", kwargs := ← getValMap (← e.getObjVal? "kwargs"),
+            start := ← getPt (← e.getObjVal? "start"), stop := ← getPt (← e.getObjVal? "end") } : DElem)
+  let n ← getNat j "n"
+  let ga := (← getPts j "ord_all").map roundPt
+  let gu := (← getPts j "ord_uniq").map roundPt
+  let ord := ordFrom ga gu
+  let rec go (k : Nat) (d : List DElem) (acc : List Json) : List Json :=
+    let c := jsonExcept jsonCircuit (do circuitTranslator π ord (← instantiate π d))
+    match k with
+    | 0 => (c :: acc).reverse
+    | k + 1 =>
+      match saveLoad π ord d with
+      | .ok d' => go k d' (c :: acc)
+      | .error e => ((Json.mkObj [("err", e.tag)]) :: c :: acc).reverse
+  pure (Json.arr (go n drawing []).toArray)
+
+/-- op `draw_declarative`: the declarative element list ↦ constructor calls and placement requests -/
+def h_drawDeclarative : Handler := fun j => do
+  let elems ← (← getArr j "elements").toList.mapM getValMap
+  let unit ← getRatK j "unit"
+  let π ← getPi j
+  pure (jsonExcept (fun (l : List Placement) => Json.arr (l.map fun p => Json.mkObj [
+      ("cls", p.cls), ("kwargs", jsonValMap p.kwargs), ("method", p.method), ("length", jsonRat p.length),
+      ("at_end_of", match p.after with | some i => Json.num (i : Int) | none => Json.null)]).toArray)
+    (declarative π unit elems))
+
+def handlers : List (String × Handler) :=
+  [("draw_parse", h_drawParse), ("draw_round", h_drawRound), ("draw_construct", h_drawConstruct),
+   ("draw_load", h_drawLoad), ("draw_cycles", h_drawCycles), ("draw_declarative", h_drawDeclarative)]
+
+end CC.DrawDriver
+
 namespace CC
-open Lean
-
-def handlersDraw : List (String × Handler) := []
-
+def handlersDraw : List (String × Handler) := DrawDriver.handlers
 end CC
